@@ -19,14 +19,16 @@ pub(crate) fn update_backtracks<A>(dfa: &mut DFA<StateIdx, A>) {
         .collect();
 
     // Set of visited nodes, with their backtrack state when visited. If a state's backtrack
-    // property changes, we visit it again to make its successors backtrack.
+    // property changes from `false` to `true`, we visit it again to make its successors backtrack.
+    // The property never changes from `true` to `false`: a state needs to backtrack if *any* path
+    // to it goes through an accepting state.
     let mut visited: Map<StateIdx, bool> = Default::default();
 
     while let Some((state, backtrack)) = work_list.pop() {
         // Did we visit the state, with the right backtrack state?
         match visited.entry(state) {
             Entry::Occupied(mut entry) => {
-                if *entry.get() == backtrack {
+                if *entry.get() || !backtrack {
                     continue;
                 }
                 entry.insert(backtrack);
